@@ -1109,6 +1109,21 @@ def run(ctx: Ctx, rep: Report, tier: str) -> None:
     sub9 = Report("C16")
     splitter_vocabulary(ctx, sub9, "R09.5")
     rep.absorb(sub9, "R16.15")
+    # R16.27 the port split carries every block over as the object it is (C19 R19.4): a split that walks a flattened
+    # copy of the member list hands Acl.group() bare entries, and every block is rebuilt without uuid, note and number
+    from .c19 import splice_rule
+
+    sub194 = Report("C16")
+    splice_rule(ctx, sub194, "AceGroup.ungroup_ports")
+    splice_rule(ctx, sub194, "Acl.ungroup_ports")
+    rep.absorb(sub194, "R16.27")
+    # R16.28 what equality compares is current: a memo kept by an object (the network list, a remembered hash) is reset
+    # by every writer of what it was computed from (C05 R05.1), else a copy of a changed object differs from it
+    from .c05 import memo_rules
+
+    sub51 = Report("C16")
+    memo_rules(ctx, sub51, rid="R05.1")
+    rep.absorb(sub51, "R16.28")
     from .c01 import field_isolation
 
     field_isolation(ctx, rep, "R16.10")
@@ -1121,5 +1136,5 @@ def run(ctx: Ctx, rep: Report, tier: str) -> None:
 
 
 # what the later rounds (seeding rounds 2-5, refactor twins, defect hunt) added to what the check decides
-LATER_ROUNDS = "rebuilt blocks keep uuid, note, number and receive the ACL's version, block identity is filed under a unique key, every exported class with copy() has an equality, adopted entries get the same settings from both rule-list builders"
+LATER_ROUNDS = "rebuilt blocks keep uuid, note, number and receive the ACL's version, block identity is filed under a unique key, every exported class with copy() has an equality, adopted entries get the same settings from both rule-list builders, the port split keeps block objects, memos are reset by every writer"
 EXPLANATION = EXPLANATION.replace(" Does not decide", " Later rounds added: " + LATER_ROUNDS + ". Does not decide", 1) if " Does not decide" in EXPLANATION else EXPLANATION + " Later rounds added: " + LATER_ROUNDS + "."
